@@ -1,3 +1,4 @@
+import Svgbob.Proofs.ArcCanvas
 import Svgbob.Proofs.Guard
 import Svgbob.Proofs.CircleFacts
 import Svgbob.Model.Doc
@@ -18,8 +19,10 @@ negative), the ordered fragment buffer, every merge (merged lines end in end poi
 a line snapped to a bullet ends in the bullet's centre), contact grouping, and sharp and rounded
 rectangle endorsement (corners are hull corners of the parts). A circle matched from the catalogue
 lies inside the canvas of the span wherever the span is (`circle_anywhere_inside_canvas`, from the
-decided catalogue facts). Not covered by a theorem: the end points of catalogue *arcs* (quarter,
-half, three-quarter) and the extent of a text beyond its first cell (both oracle only).
+decided catalogue facts); the end points of the catalogue's quarter, half and three-quarter arcs
+likewise (`catalogue_matches_inside_canvas`, from `catalogue_fragments_stay_near_their_drawing`,
+decided over the regenerated catalogue). Not covered by a theorem: how far an arc bulges between its
+end points and the extent of a text beyond its first cell (both oracle only).
 Known finding: texts from the quoted-string channel are not counted in the canvas size
 (`KNOWN_FINDINGS.json`, class `quoted_text_outside_canvas`).
 -/
@@ -149,5 +152,19 @@ theorem cell_size_is_the_sources :
     Gen.cellWidthMilli = 1000 ∧ Gen.cellHeightMilli = 2000 ∧ Gen.horizontalSlices = 4 ∧
     Gen.verticalSlices = 8 ∧ (⟨1, 1⟩ : Cell).origin = ⟨Gen.cellWidthMilli, Gen.cellHeightMilli⟩ :=
   cell_size_matches_source
+
+/-- every circle and every quarter, half and three-quarter arc of the regenerated catalogue has its
+control points between the top-left cell of its own drawing and one cell beyond its bottom-right cell
+(kernel evaluation) -/
+theorem catalogue_fragments_stay_near_their_drawing :
+    catalogue.map Catalogue.arcsInsideB = some true := real_catalogue_arcs_inside
+
+/-- **whatever the catalogue stage accepts in a span — circle or arc — has its control points inside
+the canvas of the span**, wherever the span is -/
+theorem catalogue_matches_inside_canvas (cat : Catalogue) (hcat : cat.arcsInsideB = true)
+    (mx my : Int) (s : Span) (hs : SpanIn mx my s) (acc : List FragSpan) (rest : Span)
+    (h : endorseArcsAndCircles cat s = some (acc, rest)) :
+    ∀ f ∈ acc, f.frag.InRange 0 ((mx + 2) * 1000) 0 ((my + 2) * 2000) :=
+  endorseArcsAndCircles_inCanvas cat hcat mx my s hs acc rest h
 
 end Svgbob.C12
